@@ -65,12 +65,15 @@ def tzcnt_term(x):
 
 
 def prefix_xor(x):
-    r = x
-    k = 1
-    while k < x.size():
-        r = r ^ (r << k)
-        k *= 2
-    return r
+    """bit i of the result = x[0] ^ ... ^ x[i], built as the linear chain (a log-step form is equivalent but makes
+    the parity reasoning needlessly hard for the SAT core)"""
+    w = x.size()
+    acc = z3.Extract(0, 0, x)
+    bits = [acc]
+    for i in range(1, w):
+        acc = acc ^ z3.Extract(i, i, x)
+        bits.append(acc)
+    return z3.Concat(*reversed(bits))
 
 
 def clmul64(a, b):
@@ -259,8 +262,6 @@ def get_result(st, index):
 class Executor:
     def __init__(self, prog, timeout_ms=60000, log=None):
         self.prog = prog
-        self.solver = z3.Solver()
-        self.solver.set("timeout", timeout_ms)
         self.timeout_ms = timeout_ms
         self.queries = 0
         self.solver_s = 0.0
@@ -280,15 +281,16 @@ class Executor:
     def check(self, conds, nontrivial=False):
         """sat / unsat / raises Inconclusive on unknown"""
         t0 = time.time()
-        s = self.solver
-        s.push()
+        # a fresh solver per query: z3's incremental (push/pop) core is orders of magnitude slower on these
+        # bit-vector problems than the one-shot tactic pipeline
+        s = z3.Solver()
+        s.set("timeout", self.timeout_ms)
         for c in self.assumptions:
             s.add(c)
         for c in conds:
             s.add(c)
         r = s.check()
         model = s.model() if r == z3.sat else None
-        s.pop()
         dt = time.time() - t0
         self.queries += 1
         self.solver_s += dt
